@@ -698,6 +698,10 @@ impl<'i> Interp<'i> {
         Outcome { out: self.out.clone(), end }
     }
 
+    pub fn set_global(&mut self, n: &Name, v: V) {
+        self.scopes[0].insert(n.key(), Entry::Var(v));
+    }
+
     /// value of a global variable after the run (None if absent or a function)
     pub fn global(&self, n: &Name) -> Option<V> {
         match self.scopes[0].get(&n.key()) {
